@@ -12,6 +12,13 @@ def main():
         except vf.HarnessFailure as e:
             errs.append(str(e))
     vf.pmap(b, names, jobs=8)
+    # the uninstrumented flavour for the valgrind memcheck sample (C02)
+    try:
+        vf.build_lib("plain")
+        for n in ("codec", "fields"):
+            vf.build_harness(n, flavour="plain")
+    except vf.HarnessFailure as e:
+        errs.append(str(e))
     if errs:
         print("\n".join(errs)); sys.exit(2)
     print("setup ok: %d harnesses" % len(names))
